@@ -84,7 +84,7 @@ pub struct FdCfg {
 
 impl Default for FdCfg {
     fn default() -> Self {
-        FdCfg { phi: 8.0, window: 1000, max_interval: 10, initial: 5, dead_grace: 86400 }
+        FdCfg { phi: 8.0, window: 3, max_interval: 10, initial: 5, dead_grace: 86400 }
     }
 }
 
@@ -372,7 +372,14 @@ impl World {
         for (id, st) in node.watch_rx.borrow().iter() {
             w.insert(name_of_cid(id), json!(st.max_version()));
         }
-        json!({"ns": ns, "live": live, "dead": dead, "sched": sched, "watch": w,
+        // failure-detector windows (hook verif_fd_windows): sample count, sum, tick of the last report
+        let now = self.now_ticks() as i64;
+        let mut fd = Map::new();
+        for (id, len, sum, elapsed) in node.cc.verif_fd_windows() {
+            let last = match elapsed { Some(e) => now - e.round() as i64, None => -1 };
+            fd.insert(name_of_cid(&id), json!({"n": len, "sum": sum.round() as i64, "last": last}));
+        }
+        json!({"ns": ns, "live": live, "dead": dead, "sched": sched, "watch": w, "fd": fd,
                "wseq": node.wseq, "cb": node.cb.load(Ordering::SeqCst)})
     }
 
